@@ -272,6 +272,75 @@ def r9_5(ctx, rc):
         raise AnalysisError('only %d directory creation sites' % n)
 
 
+def r9_6(ctx, rc):
+    """Arbitration of concurrently created directories: whenever a
+    reservation is counted, the caller's created-directories argument is
+    consulted before the loop is left - also on the "already reserved by
+    another thread" path - so that a directory this thread created is owned
+    by someone."""
+    F = ctx.E.func('BuildDirs.started_building_file')
+    if len(F.params) < 2:
+        raise AnalysisError('started_building_file lost its created-dirs '
+                            'parameter')
+    p = F.params[1]
+    derived = {p}
+    changed = True
+    while changed:
+        changed = False
+        for n in ast.walk(F.node):
+            if isinstance(n, ast.Assign) and any(
+                    isinstance(x, ast.Name) and x.id in derived
+                    for x in ast.walk(n.value)):
+                for t in n.targets:
+                    if isinstance(t, ast.Name) and t.id not in derived:
+                        derived.add(t.id)
+                        changed = True
+    sg = ctx.E.super(F, lambda g: False)
+
+    def counts_store(x):
+        if x.kind != 'out' or x.cn.kind != 'stmt' or not isinstance(
+                x.cn.ast, ast.Assign):
+            return False
+        return any(isinstance(t, ast.Subscript) and isinstance(
+            t.value, ast.Attribute) and t.value.attr == '_build_dir_counts'
+            for t in x.cn.ast.targets)
+
+    def consults(x):
+        if x.kind != 'in' or x.cn.kind not in ('cond', 'for_iter', 'stmt'):
+            return False
+        return any(isinstance(n, ast.Name) and n.id in derived and
+                   isinstance(n.ctx, ast.Load)
+                   for e in x.cn.exprs for n in ast.walk(e))
+    stores = [x for x in sg.nodes if counts_store(x)]
+    if not stores:
+        raise AnalysisError('reservation count update not found')
+    loop_heads = {x.id for x in sg.nodes
+                  if x.kind == 'in' and x.cn.kind == 'join'}
+    for st in stores:
+        w = None
+        seen = sg.reach([st.id], avoid=consults)
+        for nid in sorted(seen):
+            x = sg.nodes[nid]
+            if nid != st.id and (x.id in sg.all_exits() or
+                                 x.id in loop_heads):
+                w = sg.witness(seen, nid)
+                break
+        key = 'created directories consulted after every reservation'
+        if w:
+            rc.violation(
+                'ownership-skipped | BuildDirs.started_building_file',
+                'after a reservation is counted the loop can be left '
+                'without consulting the directories the caller created '
+                '(the already-reserved path): when another thread saw the '
+                'directory this thread had just created and reserved it '
+                'first, nobody records it as created - clean leaves it '
+                'behind, later builds treat it as foreign', st.where(),
+                sg.describe_path(w), key=key)
+        else:
+            rc.ok({'reservation': 'BuildDirs.started_building_file',
+                   'consults': sorted(derived)}, key=key)
+
+
 RULES = [
     ('R9.1', 'lock-acquisition graph: acyclic, documented order', r9_1),
     ('R9.2', 'no user callback inside a critical section', r9_2),
@@ -279,4 +348,5 @@ RULES = [
     ('R9.4', 'the lock-free old cache is never mutated', r9_4),
     ('R9.5', 'shared directory creation tolerates a concurrent creator',
      r9_5),
+    ('R9.6', 'a concurrently created directory keeps an owner', r9_6),
 ]
